@@ -10,20 +10,20 @@ import (
 
 // thread is an interpreter goroutine. Exactly one thread holds the baton at any time.
 type thread struct {
-	run      *Run
-	id       int
-	name     string
-	depth    int
-	inInit   int
-	wake     chan struct{}
-	finished bool
-	daemon   bool
-	waitFor  func() bool // nil: runnable; else enabled iff waitFor()
-	waitDesc string
-	top      *frame
-	vc       vclock
-	fn       value
-	args     []value
+	run       *Run
+	id        int
+	name      string
+	depth     int
+	inInit    int
+	wake      chan struct{}
+	finished  bool
+	daemon    bool
+	waitFor   func() bool // nil: runnable; else enabled iff waitFor()
+	waitDesc  string
+	top       *frame
+	vc        vclock
+	fn        value
+	args      []value
 	noPreempt int
 }
 
@@ -386,14 +386,14 @@ type sendItem struct {
 }
 
 type channel struct {
-	buf      []value
-	bufvc    []vclock
-	capacity int
-	closed   bool
-	sendq    []*sendItem
-	closevc  vclock
+	buf         []value
+	bufvc       []vclock
+	capacity    int
+	closed      bool
+	sendq       []*sendItem
+	closevc     vclock
 	recvWaiters int
-	id       int
+	id          int
 }
 
 func newChannel(r *Run, capacity int) *channel {
